@@ -3,6 +3,7 @@ use crate::{
     errors::prelude::*,
     extensions::prelude::*,
     numeric::prelude::*,
+    validators::prelude::*,
 };
 
 /// `ArrayTrait` - Binary Array bits operations
@@ -57,11 +58,12 @@ pub trait ArrayBinaryBits where Self: Sized + Clone {
 impl ArrayBinaryBits for Array<u8> {
 
     fn unpack_bits(&self, axis: Option<isize>, count: Option<isize>, bit_order: Option<impl BitOrderType>) -> Result<Array<u8>, ArrayError> {
-        if self.is_empty()? { return Self::empty() }
         let bit_order = match bit_order {
             Some(bo) => bo.to_bit_order()?,
             None => BitOrder::Big,
         };
+        if let Some(axis) = axis { self.axis_in_bounds(self.normalize_axis(axis))?; }
+        if self.is_empty()? { return Self::empty() }
         match axis {
             None => {
                 let result = self.ravel()?
@@ -88,11 +90,12 @@ impl ArrayBinaryBits for Array<u8> {
     }
 
     fn pack_bits(&self, axis: Option<isize>, bit_order: Option<impl BitOrderType>) -> Result<Array<u8>, ArrayError> {
-        if self.is_empty()? { return Self::empty() }
         let bit_order = match bit_order {
             Some(bo) => bo.to_bit_order()?,
             None => BitOrder::Big,
         };
+        if let Some(axis) = axis { self.axis_in_bounds(self.normalize_axis(axis))?; }
+        if self.is_empty()? { return Self::empty() }
         match axis {
             None => {
                 let mut elements = self.get_elements()?;
